@@ -85,10 +85,69 @@ def exponent(rng, tier):
     v = rng.getrandbits(rng.choice([64, 128, 192]))
     return v & ~((1 << rng.choice([3, 17, 64, 70])) - 1)        # long runs of zero bits (window logic)
 
+def half_length_cases(rng, tier):
+    """mul_normalized / sqr_normalized take the `na + nb <= n` branch (one conditional subtraction instead of a
+    long division) when the trimmed operands together have at most n words: moduli of exactly n in
+    {2,3,4,5,6,8,9,16} words, top bit set (no shift) or 1..63 leading zero bits, operands whose *residues* have
+    exactly n/2, n/2 +- 1 (and na + nb = n, n +- 1) words with all-ones / 2^k - small / random patterns, so that
+    a*b crosses m; through sqr, mul with equal and different operands, pow with small exponents, and the Reducer."""
+    cnt = 260 if tier == "quick" else 6000
+    for _ in range(cnt):
+        n = rng.choice([2, 3, 4, 4, 5, 6, 6, 8, 8, 9, 16])
+        lz = rng.choice([0, 0, 0, 1, 2, 31, 32, 62, 63])
+        bits = n * 64 - lz
+        c = rng.random()
+        if c < 0.4:
+            m = (1 << (bits - 1)) + rng.choice([0, 1, 12345, rng.getrandbits(64), rng.getrandbits(bits - 2)])
+        elif c < 0.6:
+            m = (1 << bits) - rng.choice([1, 3, 59, rng.getrandbits(64) | 1])
+        else:
+            m = rng.getrandbits(bits) | (1 << (bits - 1))
+        if n == 2 and m < (1 << 64):
+            m |= 1 << 64
+        def opnd(words):
+            words = max(1, words)
+            b = words * 64
+            r = rng.random()
+            if r < 0.25:
+                v = (1 << b) - 1
+            elif r < 0.5:
+                v = (1 << b) - rng.choice([2, 12345, rng.getrandbits(32) + 1, (1 << 64) + 1])
+            elif r < 0.65:
+                v = (1 << (b - 1)) + rng.getrandbits(20)
+            elif r < 0.75:
+                # just around sqrt(m): the square / product straddles the modulus
+                from math import isqrt
+                v = isqrt(m) + rng.choice([-1, 0, 1, 2, rng.getrandbits(10)])
+            else:
+                v = rng.getrandbits(b) | (1 << (b - 1))
+            return max(0, v) % m
+        h = n // 2
+        na = rng.choice([h, h, h, h - 1, h + 1, (n + 1) // 2])
+        nb = rng.choice([na, n - na, n - na, n - na - 1, n - na + 1, h])
+        a, b = opnd(na), opnd(nb)
+        if rng.random() < 0.3:
+            a = -a
+        r = rng.random()
+        if r < 0.3:
+            yield Case("m.sqr", [hx(m), hx(a)])
+        elif r < 0.45:
+            yield Case("m.mul", [hx(m), hx(a), hx(a)])
+        elif r < 0.7:
+            yield Case("m.mul", [hx(m), hx(a), hx(b)])
+        elif r < 0.85:
+            yield Case("m.pow", [hx(m), hx(a), hx(rng.choice([2, 2, 3, 4, 5, 6, 7, 8, 16, 17, 255]))])
+        elif r < 0.92:
+            yield Case("r.sqr", [hx(m), hx(abs(a))])
+        else:
+            yield Case("r.mul", [hx(m), hx(abs(a)), hx(abs(b))])
+
 def nontrivial(c):
     return c.args and len(c.args[1 if c.op == "m.mix" else 0]) > 16     # modulus above one word
 
 def generate(rng, tier):
+    for c in half_length_cases(rng, tier):
+        yield c
     n = 2200 if tier == "quick" else 60000
     for i in range(n):
         m = modulus(rng, tier)
@@ -164,7 +223,9 @@ FRONTIER = ["num_modular Normalized2by1Divisor/3by2Divisor div_rem_{1by1,2by1,2b
 RULE = ("moduli from {1, 2^k, odd/even single word, double word with/without normalisation shift, 3..70 words with aligned/unaligned "
         "top word, all-ones / 100..0 / low-words-zero patterns} x operands of any sign and size (reduced, multiples of m, m+-1, "
         "size-class boundaries, up to 140 words) x exponents 0..3 words incl. long zero runs x ops {reduce, + - * / neg dbl sqr pow inv eq, "
-        "mixing two ConstDivisor instances, the num_modular::Reducer impl}; non-invertible elements by construction (multiples of a "
+        "mixing two ConstDivisor instances, the num_modular::Reducer impl}; a dedicated stream for the no-division branch of mul/sqr_normalized "
+        "(moduli of exactly 2..16 words with 0..63 leading zero bits x operands of exactly n/2, n/2+-1 words, all-ones / 2^k-small / "
+        "around sqrt(m), through sqr, mul (equal and different operands), pow with small exponents); non-invertible elements by construction (multiples of a "
         "factor of m); sums/doubles that hit exactly m. Non-trivial := modulus above one word; distinct := distinct (op,args) lines.")
 EXPLANATION = ("Lean theorems (all W, all moduli, all integers): reduce yields a Valid pre-shifted residue equal to a mod m; + - * neg dbl "
                "sqr preserve Valid and commute with residue; pow = a^e mod m for every e in every ring (square-and-multiply over words; windowed loop for multi-word rings); inv = Some x iff gcd(a,m)=1 "
